@@ -48,4 +48,51 @@ theorem rinv_reachable (s : RR) (h : RReachable true s) : RInv s := by
   | init => exact rinv_init
   | step e _ hs ih => exact rinv_step _ _ e ih hs
 
+
+/-- in both variants: `r.start` stops the previous generation's fetchers before it starts the new ones — at most the
+current generation's fetchers of a Reader are running -/
+structure OneInv (s : RR) : Prop where
+  len : s.alive.length = s.gens
+  old : ∀ g, g + 1 < s.gens → s.alive.getD g false = false
+
+theorem oneinv_step (cap : Bool) (s s' : RR) (e : REv) (hi : OneInv s) (h : rstep cap s e = some s') : OneInv s' := by
+  cases e <;> simp only [rstep] at h
+  case subscribe =>
+    cases h
+    obtain ⟨l1, hold⟩ := hi
+    have hl : (if s.gens = 0 then s.alive else setAt s.alive (s.gens - 1) false).length = s.gens := by
+      split <;> simp [setAt, l1]
+    refine ⟨by simp [hl], ?_⟩
+    intro g hg
+    have hg0 : g + 1 < s.gens + 1 := hg
+    have hg' : g < s.gens := by omega
+    have hlt : g < (if s.gens = 0 then s.alive else setAt s.alive (s.gens - 1) false).length := by omega
+    simp only [List.getD, List.getElem?_append_left hlt]
+    split
+    · omega
+    · by_cases hgl : g = s.gens - 1
+      · subst hgl; simp [setAt, l1, hg']
+      · have := hold g (by omega)
+        simp [setAt, List.getElem?_set_ne (Ne.symm hgl)]
+        simpa [List.getD] using this
+  case unsub g =>
+    split at h
+    · cases h
+      obtain ⟨l1, hold⟩ := hi
+      refine ⟨by simp [setAt, l1], ?_⟩
+      intro x hx
+      have hx0 : x + 1 < s.gens := hx
+      have := hold x hx0
+      by_cases hxt : (if cap = true then g else s.gens - 1) = x
+      · have hlt : x < s.alive.length := by omega
+        simp [setAt, List.getD, hxt, hlt]
+      · simp [setAt, List.getD, List.getElem?_set_ne hxt]
+        simpa [List.getD] using this
+    · cases h
+
+theorem oneinv_reachable (cap : Bool) (s : RR) (h : RReachable cap s) : OneInv s := by
+  induction h with
+  | init => exact ⟨rfl, fun g hg => by simp at hg⟩
+  | step e _ hs ih => exact oneinv_step cap _ _ e ih hs
+
 end KV.ReaderRun
